@@ -36,11 +36,11 @@ def register(reg):
     moved = [('property', 'c.pos >= old_c.pos'),
              ('property', '(result is None) == (c.pos == old_c.pos)'),
              ('property', 'c.pos <= c.len')]
-    contract(reg, f'{F}:matchstr', P, {'c': 'ACursor', 'match': 'func:MATCHFN'}, ret='any',
+    contract(reg, f'{F}:matchstr', P, {'c': 'ACursor', 'match': 'func:MATCHFN'}, ret='any', modifies=['c.pos'],
              ensures=moved, inline=True)
     contract(reg, 'MATCHFN', P, {'f': 'func:MATCHFN', 's': 'arrstr', 'pos': 'int'}, ret='int', generic=True,
              requires=['0 <= pos', 'pos <= len(s)'],
              ensures=['result == -1 or (pos < result and result <= len(s))'],
              note='generic contract of a `match(text, pos)` callback')
     for fn in ('matchint', 'matchuint', 'matchsigned', 'matchfloat', 'matchname', 'matchbool'):
-        contract(reg, f'{F}:{fn}', P, {'c': 'ACursor'}, ret='any', ensures=moved)
+        contract(reg, f'{F}:{fn}', P, {'c': 'ACursor'}, ret='any', modifies=['c.pos'], ensures=moved)
